@@ -32,11 +32,11 @@ func c13Rune(label string) rune {
 
 func c13BoundLong(label string, v int64) {
 	if vrt.Thorough() {
-		vrt.Assume(vrt.And(v > -1000000000000000000, v < 1000000000000000000))
-		vrt.Bound("abs-symbolic-long-below-10^18-in-thorough (boundary values are separate classes)", 18)
-	} else {
 		vrt.Assume(vrt.And(v > -1000000000, v < 1000000000))
-		vrt.Bound("abs-symbolic-long-below-10^9-in-quick (boundary values are separate classes)", 9)
+		vrt.Bound("abs-symbolic-long-below-10^9-in-thorough (boundary values are separate concrete classes)", 9)
+	} else {
+		vrt.Assume(vrt.And(v > -1000000, v < 1000000))
+		vrt.Bound("abs-symbolic-long-below-10^6-in-quick (boundary values are separate concrete classes)", 6)
 	}
 }
 
@@ -55,12 +55,21 @@ func c13BoundExt(label string, v int64) {
 
 const c13ScalarClasses = 14
 
+// c13Numeric: the value on this path carries a symbolic numeric payload.  Formatting
+// the *decoded* payload a second time repeats every digit-count decision against
+// the solver, so in the quick tier the byte-stability of the second encoding is
+// checked only for the other classes (equality of the decoded value is always checked).
+var c13Numeric bool
+
+func c13Again() bool { return vrt.Thorough() || !c13Numeric }
+
 // c13Scalar returns one scalar value of the chosen class.
 func c13Scalar(label string, class int) Value {
 	switch class {
 	case 0, 7, 9:
 		// digit arithmetic: integer encoding (cvc5); everything else stays in bit-vectors
 		vrt.Theory("int-cvc5")
+		c13Numeric = true
 	}
 	switch class {
 	case 0:
@@ -107,6 +116,9 @@ func c13Value(label string, depth int) Value {
 	shapes := 1
 	if depth > 0 {
 		shapes = 6
+		if c13NoMagic {
+			shapes = 5
+		}
 	}
 	// the second member of a container ranges over all classes only in the thorough tier
 	second := func(l string) Value {
@@ -193,6 +205,7 @@ func c13Depth() int {
 // Every value survives value -> JSON -> value, with the same type tag, and the
 // second encoding is byte-identical.
 func VerifC13_ValueRoundTrip() {
+	c13Numeric = false
 	v := c13Value("v", c13Depth())
 	b1, err := json.Marshal(v)
 	vrt.Assert("C13.value.encodes", err == nil)
@@ -203,15 +216,17 @@ func VerifC13_ValueRoundTrip() {
 	vrt.Assert("C13.value.same-kind", c13SameKind(v, back))
 	vrt.Assert("C13.value.equal", v.Equal(back))
 	vrt.Assert("C13.value.equal-symmetric", back.Equal(v))
-	b2, err := json.Marshal(back)
-	vrt.Assert("C13.value.encodes-again", err == nil)
-	vrt.Assert("C13.value.stable", vrt.EqBytes(b1, b2))
+	if c13Again() {
+		b2, err := json.Marshal(back)
+		vrt.Assert("C13.value.encodes-again", err == nil)
+		vrt.Assert("C13.value.stable", vrt.EqBytes(b1, b2))
+	}
 }
 
 // Typed destinations: a value of static type T round-trips through its own
 // MarshalJSON / UnmarshalJSON pair (and through a struct field of that type).
 func VerifC13_TypedRoundTrip() {
-	vrt.Theory("int-cvc5")
+	c13Numeric = false
 	type holder struct {
 		S  Set       `json:"s"`
 		R  Record    `json:"r"`
@@ -225,16 +240,26 @@ func VerifC13_TypedRoundTrip() {
 		B  Boolean   `json:"b"`
 	}
 	var h holder
-	h.S = NewSet(c13Scalar("s0", vrt.Choice("s0.class", c13ScalarClasses)))
-	h.R = NewRecord(RecordMap{"a": c13Scalar("r0", vrt.Choice("r0.class", c13ScalarClasses))})
-	h.U = c13Scalar("u", 5+vrt.Choice("u.class", 2)).(EntityUID)
-	h.D = c13Scalar("d", 7+vrt.Choice("d.class", 2)).(Decimal)
-	h.Du = c13Scalar("du", 9+vrt.Choice("du.class", 2)).(Duration)
-	h.Dt = c13Scalar("dt", 11).(Datetime)
-	h.IP = c13Scalar("ip", 12).(IPAddr)
-	h.St = c13Scalar("st", 3+vrt.Choice("st.class", 2)).(String)
-	h.L = c13Scalar("l", vrt.Choice("l.class", 2)).(Long)
-	h.B = c13Scalar("b", 2).(Boolean)
+	// one field per path carries the varied (symbolic) content
+	focus := vrt.Choice("focus", 10)
+	pick := func(slot int, label string, classes []int, fixed Value) Value {
+		if slot != focus {
+			return fixed
+		}
+		return c13Scalar(label, classes[vrt.Choice(label+".class", len(classes))])
+	}
+	all := []int{0, 1, 2, 3, 4, 5, 6, 7, 8, 9, 10, 11, 12}
+	ip, _ := ParseIPAddr("192.168.0.0/16")
+	h.S = NewSet(pick(0, "s0", all, Long(3)), String("x"))
+	h.R = NewRecord(RecordMap{"a": pick(1, "r0", all, True), "b": Long(2)})
+	h.U = pick(2, "u", []int{5, 6}, NewEntityUID("T", "u")).(EntityUID)
+	h.D = pick(3, "d", []int{7, 8}, Decimal{value: 15000}).(Decimal)
+	h.Du = pick(4, "du", []int{9, 10}, Duration{value: 61001}).(Duration)
+	h.Dt = pick(5, "dt", []int{11}, Datetime{value: 1234}).(Datetime)
+	h.IP = pick(6, "ip", []int{12}, ip).(IPAddr)
+	h.St = pick(7, "st", []int{3, 4}, String("str")).(String)
+	h.L = pick(8, "l", []int{0, 1}, Long(42)).(Long)
+	h.B = pick(9, "b", []int{2}, True).(Boolean)
 	b1, err := json.Marshal(h)
 	vrt.Assert("C13.typed.encodes", err == nil)
 	var back holder
@@ -251,48 +276,95 @@ func VerifC13_TypedRoundTrip() {
 	vrt.Assert("C13.typed.string", h.St.Equal(back.St))
 	vrt.Assert("C13.typed.long", h.L.Equal(back.L))
 	vrt.Assert("C13.typed.bool", h.B.Equal(back.B))
-	b2, err := json.Marshal(back)
-	vrt.Assert("C13.typed.encodes-again", err == nil)
-	vrt.Assert("C13.typed.stable", vrt.EqBytes(b1, b2))
+	if c13Again() {
+		b2, err := json.Marshal(back)
+		vrt.Assert("C13.typed.encodes-again", err == nil)
+		vrt.Assert("C13.typed.stable", vrt.EqBytes(b1, b2))
+	}
 }
 
-func c13UID(label string) EntityUID {
+// c13Focus: one component per path carries symbolic content, the others are
+// fixed; otherwise the digit-count / escape-class forks of every component
+// multiply (38 x 38 x ... paths).
+var c13FocusOn int
+
+// c13NoMagic leaves the reserved-key records (one known finding, reported by
+// VerifC13_ValueRoundTrip) out of the values nested in entities.
+var c13NoMagic bool
+
+func c13UID(label string, slot int) EntityUID {
 	t := EntityType([]string{"T", "N::T"}[vrt.Choice(label+".type", 2)])
+	if slot != c13FocusOn {
+		return NewEntityUID(t, String("e-"+label))
+	}
 	return NewEntityUID(t, String("e"+string(c13Rune(label+".id"))))
 }
 
 func c13Entity(label string) Entity {
-	e := Entity{UID: c13UID(label + ".uid")}
-	switch vrt.Choice(label+".parents", 3) {
+	c13FocusOn = vrt.Choice(label+".focus", 5)
+	e := Entity{UID: c13UID(label+".uid", 0)}
+	// the component in focus takes every shape; the others one fixed shape each
+	parents, attrs, tags := 2, 1, 2
+	switch c13FocusOn {
+	case 1:
+		parents = vrt.Choice(label+".parents", 3)
+	case 2, 3:
+		attrs = vrt.Choice(label+".attrs", 3)
+	case 4:
+		tags = vrt.Choice(label+".tags", 3)
+	}
+	switch parents {
 	case 0:
 		e.Parents = NewEntityUIDSet()
 	case 1:
-		e.Parents = NewEntityUIDSet(c13UID(label + ".p0"))
+		e.Parents = NewEntityUIDSet(c13UID(label+".p0", 1))
 	case 2:
-		e.Parents = NewEntityUIDSet(c13UID(label+".p0"), NewEntityUID("P", "fixed"))
+		e.Parents = NewEntityUIDSet(c13UID(label+".p0", 1), NewEntityUID("P", "fixed"))
 	}
-	switch vrt.Choice(label+".attrs", 3) {
+	switch attrs {
 	case 0:
 		e.Attributes = NewRecord(RecordMap{})
 	case 1:
-		e.Attributes = NewRecord(RecordMap{"a": c13Value(label+".attr", 1)})
+		if c13FocusOn == 2 {
+			c13NoMagic = true
+			if vrt.Thorough() {
+				e.Attributes = NewRecord(RecordMap{"a": c13Value(label+".attr", 1)})
+			} else {
+				e.Attributes = NewRecord(RecordMap{"a": c13Scalar(label+".attr", vrt.Choice(label+".attr-class", c13ScalarClasses))})
+			}
+			c13NoMagic = false
+		} else {
+			e.Attributes = NewRecord(RecordMap{"a": NewSet(Long(1), String("s"))})
+		}
 	case 2:
-		e.Attributes = NewRecord(RecordMap{"owner": c13UID(label + ".ref"), "n": Long(vrt.Int64(label + ".n"))})
+		n := Long(7)
+		if c13FocusOn == 3 {
+			x := vrt.Int64(label + ".n")
+			vrt.Theory("int-cvc5")
+			c13Numeric = true
+			c13BoundExt(label, x)
+			n = Long(x)
+		}
+		e.Attributes = NewRecord(RecordMap{"owner": c13UID(label+".ref", -1), "n": n})
 	}
-	switch vrt.Choice(label+".tags", 3) {
+	switch tags {
 	case 0:
 		// zero Record: no tags at all
 	case 1:
 		e.Tags = NewRecord(RecordMap{})
 	case 2:
-		e.Tags = NewRecord(RecordMap{"t": c13Scalar(label+".tag", vrt.Choice(label+".tag-class", c13ScalarClasses))})
+		if c13FocusOn == 4 {
+			e.Tags = NewRecord(RecordMap{"t": c13Scalar(label+".tag", vrt.Choice(label+".tag-class", c13ScalarClasses))})
+		} else {
+			e.Tags = NewRecord(RecordMap{"t": String("tag")})
+		}
 	}
 	return e
 }
 
 // Entities and entity maps.
 func VerifC13_EntityRoundTrip() {
-	vrt.Theory("int-cvc5")
+	c13Numeric = false
 	e := c13Entity("e")
 	b1, err := json.Marshal(e)
 	vrt.Assert("C13.entity.encodes", err == nil)
@@ -305,13 +377,15 @@ func VerifC13_EntityRoundTrip() {
 	vrt.Assert("C13.entity.attrs", e.Attributes.Equal(back.Attributes))
 	vrt.Assert("C13.entity.tags", e.Tags.Equal(back.Tags))
 	vrt.Assert("C13.entity.equal", e.Equal(back))
-	b2, err := json.Marshal(back)
-	vrt.Assert("C13.entity.encodes-again", err == nil)
-	vrt.Assert("C13.entity.stable", vrt.EqBytes(b1, b2))
+	if c13Again() {
+		b2, err := json.Marshal(back)
+		vrt.Assert("C13.entity.encodes-again", err == nil)
+		vrt.Assert("C13.entity.stable", vrt.EqBytes(b1, b2))
+	}
 }
 
 func VerifC13_EntityMapRoundTrip() {
-	vrt.Theory("int-cvc5")
+	c13Numeric = false
 	e1 := c13Entity("e1")
 	e2 := Entity{UID: NewEntityUID("Z", "other"), Parents: NewEntityUIDSet(e1.UID), Attributes: NewRecord(RecordMap{"x": True})}
 	m := EntityMap{e1.UID: e1}
@@ -330,17 +404,27 @@ func VerifC13_EntityMapRoundTrip() {
 		vrt.Assert("C13.entitymap.member", ok)
 		vrt.Assert("C13.entitymap.member-equal", ent.Equal(got))
 	}
-	b2, err := json.Marshal(back)
-	vrt.Assert("C13.entitymap.encodes-again", err == nil)
-	vrt.Assert("C13.entitymap.stable", vrt.EqBytes(b1, b2))
+	if c13Again() {
+		b2, err := json.Marshal(back)
+		vrt.Assert("C13.entitymap.encodes-again", err == nil)
+		vrt.Assert("C13.entitymap.stable", vrt.EqBytes(b1, b2))
+	}
 }
 
-// Requests, decisions and diagnostics.
-func VerifC13_RequestDiagnostic() {
-	req := Request{Principal: c13UID("p"), Action: NewEntityUID("Action", "view"), Resource: c13UID("r"),
-		Context: NewRecord(RecordMap{"k": c13Scalar("ctx", vrt.Choice("ctx.class", 7))})}
-	if vrt.Choice("empty-context", 2) == 1 {
-		req.Context = Record{}
+// Requests.
+func VerifC13_Request() {
+	c13Numeric = false
+	c13FocusOn = vrt.Choice("focus", 3)
+	req := Request{Principal: c13UID("p", 0), Action: NewEntityUID("Action", "view"), Resource: c13UID("r", 1), Context: NewRecord(RecordMap{"k": Long(1)})}
+	if c13FocusOn == 2 {
+		switch vrt.Choice("context", 3) {
+		case 0:
+			req.Context = NewRecord(RecordMap{"k": c13Scalar("ctx", vrt.Choice("ctx.class", c13ScalarClasses))})
+		case 1:
+			req.Context = Record{}
+		case 2:
+			req.Context = NewRecord(RecordMap{})
+		}
 	}
 	b1, err := json.Marshal(req)
 	vrt.Assert("C13.request.encodes", err == nil)
@@ -352,9 +436,14 @@ func VerifC13_RequestDiagnostic() {
 	vrt.Assert("C13.request.action", req.Action.Equal(back.Action))
 	vrt.Assert("C13.request.resource", req.Resource.Equal(back.Resource))
 	vrt.Assert("C13.request.context", req.Context.Equal(back.Context))
-	b2, _ := json.Marshal(back)
-	vrt.Assert("C13.request.stable", vrt.EqBytes(b1, b2))
+	if c13Again() {
+		b2, _ := json.Marshal(back)
+		vrt.Assert("C13.request.stable", vrt.EqBytes(b1, b2))
+	}
+}
 
+// Decisions and diagnostics.
+func VerifC13_Diagnostic() {
 	dec := Decision(vrt.Bool("decision"))
 	db, err := json.Marshal(dec)
 	vrt.Assert("C13.decision.encodes", err == nil)
@@ -363,17 +452,36 @@ func VerifC13_RequestDiagnostic() {
 	vrt.Assert("C13.decision.equal", dec == dback)
 
 	var diag Diagnostic
-	pos := Position{Filename: "f" + string(c13Rune("file-rune")), Offset: int(vrt.IntRange("offset", 0, 1000000)), Line: int(vrt.IntRange("line", 1, 100000)), Column: int(vrt.IntRange("column", 1, 1000))}
+	pos := Position{Filename: "f.cedar", Offset: 12, Line: 3, Column: 4}
+	pid, msg := PolicyID("policy0"), "while evaluating: <type error>"
+	switch vrt.Choice("focus", 6) {
+	case 0:
+		pos.Filename = "f" + string(c13Rune("file-rune"))
+	case 1:
+		vrt.Theory("int-cvc5")
+		pos.Offset = int(vrt.IntRange("offset", 0, 1000000))
+	case 2:
+		vrt.Theory("int-cvc5")
+		pos.Line = int(vrt.IntRange("line", -5, 100000))
+	case 3:
+		vrt.Theory("int-cvc5")
+		pos.Column = int(vrt.IntRange("column", 0, 1000))
+	case 4:
+		pid = PolicyID("p" + string(c13Rune("pid-rune")))
+	case 5:
+		msg = "m<" + string(c13Rune("msg-rune")) + ">"
+	}
 	switch vrt.Choice("diag", 4) {
 	case 1:
-		diag.Reasons = []DiagnosticReason{{PolicyID: "policy0", Position: pos}}
+		diag.Reasons = []DiagnosticReason{{PolicyID: pid, Position: pos}}
 	case 2:
-		diag.Errors = []DiagnosticError{{PolicyID: PolicyID("p" + string(c13Rune("pid-rune"))), Position: pos, Message: "m<" + string(c13Rune("msg-rune")) + ">"}}
+		diag.Errors = []DiagnosticError{{PolicyID: pid, Position: pos, Message: msg}}
 	case 3:
-		diag.Reasons = []DiagnosticReason{{PolicyID: "a", Position: pos}, {PolicyID: "b"}}
-		diag.Errors = []DiagnosticError{{PolicyID: "c", Message: "while evaluating"}}
+		diag.Reasons = []DiagnosticReason{{PolicyID: "a", Position: pos}, {PolicyID: pid}}
+		diag.Errors = []DiagnosticError{{PolicyID: "c", Message: msg}}
 	}
 	gb, err := json.Marshal(diag)
+	vrt.Cover("C13.diagnostic.roundtrip")
 	vrt.Assert("C13.diagnostic.encodes", err == nil)
 	var gback Diagnostic
 	vrt.Assert("C13.diagnostic.decodes", json.Unmarshal(gb, &gback) == nil)
@@ -502,7 +610,7 @@ func VerifC13_LongLiterals() {
 	vrt.Theory("int-cvc5")
 	switch vrt.Choice("form", 3) {
 	case 0:
-		doc := []string{"9223372036854775807", "-9223372036854775808", "9223372036854775808", "-9223372036854775809", "1.0", "1e2", "-0", "00", "+1", "0x10", " 7 ", "18446744073709551616"}[vrt.Choice("doc", 12)]
+		doc := []string{"9223372036854775807", "-9223372036854775808", "9223372036854775808", "-9223372036854775809", "1.0", "1e2", "-0", "+1", " 7 ", "18446744073709551616", "1.5", "-"}[vrt.Choice("doc", 12)]
 		var v Value
 		err := UnmarshalJSON([]byte(doc), &v)
 		vrt.Cover("C13.long.literals")
